@@ -273,6 +273,8 @@ def owners(div):
     own = set()
     for key in keys:
         own |= owners_key(fn, key, exps.get(key), obs)
+    if isinstance(div.get("also"), dict):   # an allocation-count difference seen earlier in the same script
+        own |= owners_key((div["also"].get("call") or {}).get("fn", ""), "nalloc", None, {})
     return own or {"C14"}
 
 
@@ -1019,6 +1021,8 @@ def conclude(prop, tier, results, known, outdir, t0):
             model_viol.append((res["family"], res["tlc"]["invariant_violated"]))
         for d in res["bad"]:
             own = owners(d) | FAMILY_EXTRA_OWNERS.get(res["family"], set())
+            if res["family"] in ("env", "env2") and "r" in (d.get("keys") or []) and isinstance(d.get("obs"), dict) and d["obs"].get("r") == -2:
+                own |= {"C03"}   # the requested program was not found where the contract says it is: program resolution
             if "INFRA" in own:
                 infra.append(d)
                 continue
